@@ -261,3 +261,6 @@ def run(rep, prog, thorough):
     # "the section still appears": the document assembly keeps one entry per decoded section (rule shared with C01)
     from .c01 import check_buildoutput
     check_buildoutput(rep, prog)
+    # a hex dump stands for the payload only if it shows every byte (rule shared with C16)
+    from .c16 import check_hexdump_lines
+    check_hexdump_lines(rep, prog, "C04.R1.payload-never-dropped", thorough)
